@@ -770,19 +770,32 @@ func checkAndDeleteKey(ctx context.Context,
 	}
 
 	// key not found in index
-	var attrs storage.Attributes
+	var (
+		attrs   storage.Attributes
+		missing bool
+	)
 	if err = backoff.Retry(func() error {
 		var e error
 		attrs, e = blob.GetAttr(ctx, key)
-		if !errors.Is(e, status.ErrNotExists) {
-			return err
+		if errors.Is(e, status.ErrNotExists) {
+			missing = true
+
+			return nil
 		}
 
-		return nil
+		return e
 	},
 		backoff.WithContext(insistantBackoff(), ctx),
 	); err != nil {
-		logger.Error("retrieving blob attributes", zap.Error(err))
+		// without the attributes, we don't know how old the blob is: it might be newer than the index. Keep it.
+		logger.Error("retrieving blob attributes: keeping blob", zap.Error(err))
+
+		return nil
+	}
+
+	if missing {
+		// nothing left to delete
+		return nil
 	}
 
 	// the blob has been created after the index: skip
@@ -793,10 +806,9 @@ func checkAndDeleteKey(ctx context.Context,
 		return nil
 	}
 
-	_ = atomic.AddUint64(deletedSize, uint64(attrs.Size))
-	_ = atomic.AddUint64(deletedEntries, 1)
-
 	if dryRun {
+		_ = atomic.AddUint64(deletedSize, uint64(attrs.Size))
+		_ = atomic.AddUint64(deletedEntries, 1)
 		croak("key to be deleted (dry-run)", zap.Int64("size", attrs.Size))
 
 		return nil
@@ -805,17 +817,22 @@ func checkAndDeleteKey(ctx context.Context,
 	// proceed with deletion from the blob store
 	if err = backoff.Retry(func() error {
 		e := blob.Delete(ctx, key)
-		if !errors.Is(e, status.ErrNotExists) {
-			return err
+		if errors.Is(e, status.ErrNotExists) {
+			return nil
 		}
 		// under high pressure, google API often fails with: "googleapi: Error 503: We encountered an internal error. Please try again., backendError"
 
-		return nil
+		return e
 	},
 		backoff.WithContext(insistantBackoff(), ctx),
 	); err != nil {
 		logger.Error("deleting blob", zap.Error(err))
+
+		return nil
 	}
+
+	_ = atomic.AddUint64(deletedSize, uint64(attrs.Size))
+	_ = atomic.AddUint64(deletedEntries, 1)
 
 	return nil
 }
